@@ -1,5 +1,6 @@
 from __future__ import annotations
 
+import re
 from dataclasses import dataclass, field
 from typing import Any, ClassVar
 
@@ -12,13 +13,15 @@ from nix_manipulator.expressions.expression import (
     coerce_expression,
 )
 from nix_manipulator.expressions.layout import empty_line, linebreak
-from nix_manipulator.expressions.path import NixPath
 from nix_manipulator.expressions.trivia import (
     collect_comment_trivia_between,
     format_interstitial_trivia_with_separator,
     gap_between,
     layout_from_gap,
 )
+
+# Operand text that starts with a path literal (`./x`, `../x`, `a/b`, `/abs`).
+_PATH_START_RE = re.compile(r"[A-Za-z0-9._+-]*/[A-Za-z0-9._+$-]")
 
 
 @dataclass(slots=True, repr=False)
@@ -111,7 +114,7 @@ class UnaryExpression(TypedExpression):
             expression_str = self.expression.rebuild(indent=indent, inline=True)
 
         inline_sep = " " if self.between else ""
-        if self.operator == "-" and isinstance(self.expression, NixPath):
+        if self.operator == "-" and _PATH_START_RE.match(expression_str):
             # `-./x` or `-a/b` would lex as a single path token.
             inline_sep = " "
         between_str, operand_prefix = format_interstitial_trivia_with_separator(
